@@ -14,7 +14,12 @@ Claimed layers (DESIGN.md 7/C01):
  L2  call sites: every statement in the effective routines that updates `jobs` assigns only state / attempt_id / status /
      n_pending_parents / cancelled (A2: user, inst_coll, job_group_id, update_id, always_run, cores_mcpu are never
      assigned) - closed-world scan of routines and of the SQL embedded in batch/batch/**/*.py.
-Not claimed here (listed undecided): bulk operations (cancel_job_group, commit_batch_update, _create_jobs staging).
+
+ L3  bulk operations (pointwise, meta-lemma L2): cancel_job_group moves exactly the cancelled group's totals of COMMITTED
+     updates from the user's live counters to its cancelled counters and subtracts the group's totals from every ancestor
+     group (contracts/cancel_counters.py); _create_jobs stages per (group, inst_coll) exactly [Ready] / [Ready and not
+     always_run] counts and cores for each job (contracts/create_jobs_frag.py).
+Not claimed (listed undecided): cancel_batch, commit_batch_update staging transfer, cleanup loops.
 """
 from __future__ import annotations
 
@@ -163,8 +168,14 @@ def build(ctx):
     ctx.add(core.decided('closed-world/no-python-statement-updates-jobs', not py_sites, repr(py_sites), kind='scan'))
     from contracts import sqlspec as _SP
     _SP.engine_obligations(ctx, ex)
+    # ---- L3: bulk operations
+    from contracts import cancel_counters, create_jobs_frag
+    ex3 = SP.proc_exec(inline_after=False)
+    cancel_counters.analyze(ctx, ex3, 'cancel_job_group')
+    SP.engine_obligations(ctx, ex3)
+    create_jobs_frag.add(ctx, a=['staged-n_jobs', 'staged-ready-count', 'staged-ready-cores', 'staged-cancellable-count', 'staged-cancellable-cores', 'ready-iff-first-update-and-no-parents'], b=())
     ctx.assume('each trigger invocation sees one consistent database (statement atomicity); the group-cancellation relation does not change within a jobs UPDATE statement (no statement writes jobs and job_groups_cancelled together)')
     ctx.assume('token abstraction: readers aggregate the counters over `token`; one shard changed by e changes the total by e (meta-lemma L1)')
     ctx.assume('MySQL evaluates select-list expressions left to right before the ON DUPLICATE KEY UPDATE clause of the same row')
-    ctx.undecided('bulk operations: cancel_job_group / cancel_batch subtraction of group counters, commit_batch_update staging transfer, _create_jobs staging rows, cleanup loops (pointwise obligations planned in DESIGN.md 7/C01 layer 3)')
+    ctx.undecided('bulk operations not yet under contract: cancel_batch (DELETE of the cancellable rows), commit_batch_update staging transfer into the user counters, the per-ancestor fan-out of the staging rows in _create_jobs, cleanup loops in driver/main.py')
     ctx.undecided('layer-2 clause (iii): every jobs UPDATE touches only committed jobs or leaves the summands unchanged (ties C01 to C41; mark_job_complete children statement is the known exception F1)')
